@@ -8,6 +8,7 @@ CGS<->SI electromagnetic pairs).  A value that does not rationalise (or is not
 (the property predicates are still evaluated on them)."""
 
 import math
+import re
 from fractions import Fraction
 
 PI = math.pi
@@ -84,9 +85,59 @@ EXACT_SYSTEMS = ["mks", "cgs", "imperial"]
 TABLE_SYSTEMS = ["mks", "cgs", "imperial", "galactic", "solar"]
 
 
+# ---- the `user` instance: a registry created by the caller (UnitRegistry() + add/modify) ----
+# add: symbols that exist only in that registry; modify: re-calibrated symbols, among them base units of the stock
+# unit systems (imperial ft/lb/R, galactic kpc/Msun/Myr through pc/Msun/yr, solar AU/Mearth/yr).  The same edit list
+# is applied to the table TLC reads and to the real registry the workers build.
+USER_EDITS = [
+    {"op": "add", "sym": "code_length", "value": "2.5", "dim": "length", "prefixable": True},
+    {"op": "add", "sym": "code_mass", "value": "4.0", "dim": "mass", "prefixable": False},
+    {"op": "add", "sym": "code_time", "value": "0.125", "dim": "time", "prefixable": False},
+    {"op": "add", "sym": "code_temperature", "value": "2.0", "dim": "temperature", "prefixable": False},
+    {"op": "modify", "sym": "ft", "value": "0.25"},
+    {"op": "modify", "sym": "lb", "value": "0.5"},
+    {"op": "modify", "sym": "R", "value": "0.5"},
+    {"op": "modify", "sym": "Msun", "value": "2e+30"},
+    {"op": "modify", "sym": "Mearth", "value": "6e+24"},
+    {"op": "modify", "sym": "pc", "value": "3e+16"},
+    {"op": "modify", "sym": "AU", "value": "150000000000.0"},
+    {"op": "modify", "sym": "yr", "value": "32000000.0"},
+    {"op": "modify", "sym": "G", "value": "0.5"},
+    {"op": "modify", "sym": "statC", "value": "0.25"},
+]
+USER_DIMS = {"mass": 0, "length": 1, "time": 2, "temperature": 3}
+USER_POOL = [
+    "code_length", "kcode_length", "m", "km", "ft", "mile", "pc", "kpc", "AU",
+    "code_mass", "kg", "g", "lb", "Msun", "Mearth",
+    "code_time", "s", "yr", "Myr",
+    "code_temperature", "K", "degC", "R", "degF",
+    "T", "mT", "G", "kG", "C", "statC", "mstatC",
+]
+USER_COMP_ATOMS = ["code_length", "m", "ft", "code_time", "s", "code_mass", "kg"]
+USER_COMP_EXPS = [[1, -1]]  # products and mass**-2 in solar/galactic units leave the float32 range
+USER_SYSTEMS = ["mks", "cgs", "imperial", "galactic", "solar"]
+
+
+def apply_edits(rows, ndim):
+    rows = [dict(r) for r in rows]
+    by = {r["sym"]: r for r in rows}
+    for e in USER_EDITS:
+        v = float(e["value"])
+        if e["op"] == "add":
+            dim = [12 if j == USER_DIMS[e["dim"]] else 0 for j in range(ndim)]
+            r = {"sym": e["sym"], "scale": {"repr": repr(v)}, "dim": dim, "dimstr": "(" + e["dim"] + ")", "offset": {"repr": "0.0"}, "prefixable": bool(e["prefixable"])}
+            rows.append(r)
+            by[e["sym"]] = r
+        elif e["sym"] in by:
+            by[e["sym"]]["scale"] = {"repr": repr(v)}
+    return rows
+
+
 def build(ex, mode):
-    """ex = ck.extract(); mode 'exact' | 'table' -> (data for TLC, info for the replay workers)."""
+    """ex = ck.extract(); mode 'exact' | 'table' | 'user' -> (data for TLC, info for the replay workers)."""
     rows = [r for r in ex["lut"] if r["dim"] is not None]
+    if mode == "user":
+        rows = apply_edits(rows, len(ex["base_dimensions"]))
     # group by dimension vector; decide absolute vs relative scales per class
     classes = {}
     for r in rows:
@@ -155,33 +206,36 @@ def build(ex, mode):
         if b != "1":
             dimstr.setdefault(b, [12 if j == i else 0 for j in range(len(ex["base_dimensions"]))])
     systems = []
-    for sname in EXACT_SYSTEMS if mode == "exact" else TABLE_SYSTEMS:
+    for sname in {"exact": EXACT_SYSTEMS, "user": USER_SYSTEMS}.get(mode, TABLE_SYSTEMS):
         s = ex["unit_systems"].get(sname)
         if not s or "units_map" not in s:
             continue
         m = []
         for k, v in s["units_map"].items():
-            if v is not None and k in dimstr and v in names:
+            if v is not None and k in dimstr and re.fullmatch(r"\w+", v):  # a plain (possibly prefixed) symbol
                 m.append({"dim": dimstr[k], "unit": v})
         systems.append({"name": sname, "map": m})
     if mode == "exact":
         pool = [n for n in EXACT_POOL]
         comp_atoms, comp_exps = EXACT_COMP_ATOMS, EXACT_COMP_EXPS
+    elif mode == "user":
+        pool = [n for n in USER_POOL]
+        comp_atoms, comp_exps = USER_COMP_ATOMS, USER_COMP_EXPS
     else:
         pool = [r["name"] for r in lut]
         comp_atoms, comp_exps = TABLE_COMP_ATOMS, TABLE_COMP_EXPS
     comp_atoms = [a for a in comp_atoms if a in names or a[1:] in names]
     pool = [{"a": n, "ea": 1, "b": "", "eb": 0, "coef": 1} for n in pool]
     # equal-scale spellings: a conversion between them has factor exactly 1 and no offset (like K <-> delta_degC)
-    pool += [s for s in (EXACT_ALIASES if mode == "exact" else TABLE_ALIASES) if s["a"] in names and (s["b"] == "" or s["b"] in names)]
+    pool += [s for s in ({"exact": EXACT_ALIASES, "user": []}.get(mode, TABLE_ALIASES)) if s["a"] in names and (s["b"] == "" or s["b"] in names)]
     pool += [{"a": a, "ea": e[0], "b": b, "eb": e[1], "coef": 1} for a in comp_atoms for b in comp_atoms for e in comp_exps if a != b]
     data = {
         "lut": lut,
         "prefixes": prefixes,
         "em": em,
         "pool": pool,
-        "exact": mode == "exact",
+        "exact": mode in ("exact", "user"),
         "systems": systems,
     }
-    info = {"pool": pool, "gen": {k: repr(v) for k, v in GEN.items()}}
+    info = {"pool": pool, "gen": {k: repr(v) for k, v in GEN.items()}, "edits": USER_EDITS if mode == "user" else None}
     return data, info
